@@ -39,7 +39,7 @@ def buffiter(obj, chunk=10, max_chunk=1000, factor=2):
     count = chunk
     while True:
         items = syncreq(it, HANDLE_BUFFITER, count)
-        count = min(count * factor, max_chunk)
+        count = int(min(count * factor, max_chunk))  # islice() needs an integer, factor may be fractional
         if not items:
             break
         for elem in items:
